@@ -41,6 +41,12 @@ def run(ck):
             ck.violation("fatal:" + cell, "a script killed the host process (fatal Go error, not recoverable): %s\n%s\n%s" % (
                 cell, p["src"][:400], (o.get("stderr") or "")[:300]), rep)
             continue
+        if o.get("hang") and cell.startswith("cyclic-"):
+            # traversal of a self-containing value recurses without bound: the goroutine stack grows to Go's 1 GB limit and the process
+            # dies - or, on a loaded machine, is still growing when the 30 s deadline expires.  Both are the same failure of the
+            # same cell and are reported under the same key (otherwise the verdict would depend on the machine's load).
+            ck.violation("fatal:" + cell, "a script takes the host down (unbounded recursion, still running at the 30 s deadline): %s\n%s" % (cell, p["src"][:400]), rep)
+            continue
         if o.get("hang"):
             ck.violation("hang:" + cell.split(":")[0], "RunContext (3 s context) or a follow-up call did not return within 30 s: %s\n%s" % (cell, p["src"][:400]), rep)
             continue
